@@ -138,10 +138,14 @@ static void run_xdense(const json& c, uint64_t top_chunk) {
                 got.push_back(static_cast<uint64_t>(val));
                 if (got.size() > want.size() + 4) break;
                 if (!s.get(val)) throw vh::Mismatch(k, true, false, "get() of an id delivered by the iterator" + on);
-                const auto old = it2++;              // post-increment returns the old position
-                if (*old != val) throw vh::Mismatch(k, static_cast<uint64_t>(val), static_cast<uint64_t>(*old), "value of it++" + on);
-                ++it1;
-                if (!(it1 == it2) || it1 != it2) throw vh::Mismatch(k, "two iterators in step", "different positions", "iterators" + on);
+                if (RCB < 20 || got.size() == 1) {   // (were 4 MiB chunks used: the second iterator only accompanies the first id)
+                    const auto old = it2++;          // post-increment returns the old position
+                    if (*old != val) throw vh::Mismatch(k, static_cast<uint64_t>(val), static_cast<uint64_t>(*old), "value of it++" + on);
+                    ++it1;
+                    if (!(it1 == it2) || it1 != it2) throw vh::Mismatch(k, "two iterators in step", "different positions", "iterators" + on);
+                } else {
+                    ++it1;
+                }
             }
             if (want != got) throw vh::Mismatch(k, json(want), json(got), "ascending iteration" + on);
             auto it3 = s.end();
@@ -564,6 +568,8 @@ static void run_xstash(const json& c) {
     std::vector<Block> blocks;           // blocks of the current epoch, in handle order
     int64_t epoch = 0;
     std::size_t nh_max = 0;
+    std::size_t prev_cap = c["cap0"].get<std::size_t>();
+    std::size_t prev_gcs = 0;
     std::size_t um_before = cstash.used_memory();
     const std::size_t cap0 = c["cap0"].get<std::size_t>();
     if (um_before < cap0 * UNIT || um_before > cap0 * UNIT + sizeof(osmium::ItemStash) + 64) {
@@ -612,13 +618,24 @@ static void run_xstash(const json& c) {
         VH_EXPECT(k, st["size"].get<std::size_t>(), cstash.size(), "size() after " + a);
         VH_EXPECT(k, st["removed"].get<std::size_t>(), cstash.count_removed(), "count_removed() after " + a + " (tells whether a collection ran: " + st["auto"].get<std::string>() + ")");
         if (st["live"].size() != blocks.size()) throw vh::Mismatch(k, st["live"].size(), blocks.size(), "HARNESS: number of blocks");
+        // Every live item is resolved and compared after every step of a short history.  In a long one (more than 20000 live
+        // items) that is done whenever items can have moved - the buffer grew, a collection ran - and at the last step; after
+        // the other steps the first, the last and every 50th item of each block, and the whole block just added.
+        std::size_t live_items = 0;
+        for (const auto& lv : st["live"]) if (lv["size"].get<std::size_t>() != 0) live_items += lv["k"].get<std::size_t>();
+        const bool moved = st["cap"].get<std::size_t>() != prev_cap || st["gcs"].get<std::size_t>() != prev_gcs;
+        const bool full = live_items <= 20000 || moved || k + 1 == static_cast<int>(c["steps"].size());
+        prev_cap = st["cap"].get<std::size_t>();
+        prev_gcs = st["gcs"].get<std::size_t>();
         std::size_t bi = 0;
         for (const auto& lv : st["live"]) {
             const Block& b = blocks[bi++];
             if (lv["h"].get<int64_t>() != b.first || lv["k"].get<std::size_t>() != b.count) throw vh::Mismatch(k, lv, b.first, "HARNESS: block numbering");
             if (lv["size"].get<std::size_t>() == 0) continue;       // removed
             VH_EXPECT(k, lv["size"].get<std::size_t>(), b.units, "HARNESS: block size");
+            const bool whole = full || (a == "add_item" && bi == blocks.size());
             for (std::size_t j = 0; j < b.count; ++j) {
+                if (!whole && j != 0 && j + 1 != b.count && j % 50 != 0) continue;
                 const int64_t id = epoch * 100000000 + b.first + static_cast<int64_t>(j);
                 const std::string what = "the item behind handle " + std::to_string(b.first + static_cast<int64_t>(j)) + " after " + a;
                 check_node(cstash.get_item(b.handles[j]), id, item_bytes(b, j), k, what);
@@ -651,8 +668,8 @@ int main() {
             if (v == "u32low") run_xdense<uint32_t, 4>(c, 3);
             else if (v == "u64low") run_xdense<uint64_t, 4>(c, 3);
             else if (v == "u32mid") run_xdense<uint32_t, 8>(c, 5);
-            else if (v == "u32top") run_xdense<uint32_t, 22>(c, 127);
-            else if (v == "u64big") run_xdense<uint64_t, 22>(c, 200);
+            else if (v == "u32top") run_xdense<uint32_t, 16>(c, 8191);      // last chunk of the 32 bit range (64 KiB chunks)
+            else if (v == "u64big") run_xdense<uint64_t, 16>(c, 16389);     // ids beyond 2^32
             else throw vh::Mismatch(-1, "known variant", v);
         } else if (kind == "xsmall") {
             if (v == "u64") run_xsmall<uint64_t>(c);
